@@ -417,7 +417,8 @@ def render(atoms, rng=None, layout='canon', comments=0.0, recase=None):
             else:
                 s = rng.choice(['', '', ''] + WS_CHOICES)
             if comments and rng.random() < comments / 2:
-                s = s + g.comment()[0][1]
+                # never glue a comment opener to the previous token: `+--`, `/` + `/*`, `x#` lex as one token
+                s = (s if s and s[-1].isspace() else s + ' ') + g.comment()[0][1]
             out.append(s)
         elif kind == 'kw':
             if recase == 'upper':
